@@ -4,6 +4,7 @@ import WhVerif.Lemmas.C12
 import WhVerif.Model.C12Run
 import WhVerif.Spec.C12Run
 import WhVerif.Lemmas.C12Run
+import WhVerif.Lemmas.C12Len
 /-!
 # C12 — stats counts add up and describe the phase sets present in the file
 
@@ -651,5 +652,39 @@ theorem nonoverlap_sort_independent (sort : List Block → List Block) (hsort : 
   exact hlt.imp (fun hab => Nat.ne_of_lt hab)
 
 example : IsSort sortBlocks := fun l => ⟨sortBlocks_perm l, sortBlocks_sorted l⟩
+
+/-! ## the block lengths of the ALL row (round 10, seed C12-h) -/
+
+/-- **all_row_block_lengths_are_concat**: the block lengths behind the ALL row (`bp_per_block_{sum,min,max,median,avg}` are
+computed from this list) are, as a multiset, the concatenation of the piece-length lists of the chromosome rows, in ascending
+order — two pieces on different chromosomes count twice even if their start and end coordinates coincide; so does their
+number, and the ALL row's `bp_per_block_sum` is the sum of the rows'. -/
+theorem all_row_block_lengths_are_concat (i : RunIn) (o : RunOut) (h : run i = .ok o) (a : Stats) (ha : o.all = some a) :
+    (detailed a).lengths.Perm (o.parts.flatMap (fun p => (detailed p.stats).lengths)) ∧
+    (detailed a).lengths.Pairwise (· ≤ ·) ∧
+    (detailed a).lengths.length = (o.parts.map (fun p => (detailed p.stats).lengths.length)).sum ∧
+    (∀ x, (detailed a).lengths.count x = (o.parts.map (fun p => (detailed p.stats).lengths.count x)).sum) := by
+  obtain ⟨hl, hall⟩ := run_ok i o h
+  rw [hall] at ha
+  split at ha
+  · cases ha
+    have hc : ∀ s ∈ o.parts.map (·.stats), s.Consistent := by
+      intro s hs
+      obtain ⟨p, hp, rfl⟩ := List.mem_map.mp hs
+      exact chrom_consistent _ _ _ (runLoop_parts _ _ _ _ _ _ _ hl p hp).1
+    have hp := all_lengths_perm (o.parts.map (·.stats)) hc
+    rw [List.flatMap_map] at hp
+    have hp : (detailed (totalStats o.parts)).lengths.Perm (o.parts.flatMap (fun p => (detailed p.stats).lengths)) := hp
+    refine ⟨hp, lengths_sorted _, ?_, ?_⟩
+    · rw [hp.length_eq, List.length_flatMap]
+    · intro x
+      rw [hp.count_eq, List.count_flatMap]
+      rfl
+  · cases ha
+
+/-- non-vacuity, and the case of seed C12-h: two chromosomes with the same piece (100, 200); the ALL row has the length 100
+twice (and two blocks) -/
+example : ∃ i o a, run i = .ok o ∧ o.all = some a ∧ o.parts.map (fun p => (detailed p.stats).lengths) = [[100], [100]] ∧
+    (detailed a).lengths = [100, 100] ∧ (detailed a).blocks = 2 := ⟨twinRun, twinRun_ok⟩
 
 end WhVerif.Props.C12
